@@ -9,4 +9,6 @@ func ConfigureStubs(in *gosym.Interp) {
 	in.Redirect["syscall.Syscall6"] = "vstubSyscall6"
 	in.Redirect["syscall.RawSyscall"] = "vstubSyscall"
 	in.Redirect["syscall.RawSyscall6"] = "vstubSyscall6"
+	in.Redirect["runtime.LockOSThread"] = "vstubLockOSThread"
+	in.Redirect["runtime.UnlockOSThread"] = "vstubUnlockOSThread"
 }
